@@ -27,7 +27,7 @@ extern void *mpt_array_insert(MPT_STRUCT(array) *arr, size_t pos, size_t len)
 	MPT_STRUCT(buffer) *b;
 	size_t used;
 	
-	if (len > (LONG_MAX - pos)) {
+	if (pos > LONG_MAX || len > (LONG_MAX - pos)) {
 		errno = EINVAL;
 		return 0;
 	}
